@@ -161,6 +161,7 @@ impl Endpoint {
     /// `None` if the endpoint is [`close`](Self::close)d.
     pub(crate) fn accept(&self) -> Accept<'_> {
         Accept {
+            endpoint: &self.inner,
             inner: self.inner.accept(),
         }
     }
@@ -170,6 +171,7 @@ pin_project_lite::pin_project! {
     /// Future produced by [`Endpoint::accept`]
     #[must_use = "futures/streams/sinks do nothing unless you `.await` or poll them"]
     pub(crate) struct Accept<'a> {
+        endpoint: &'a quinn::Endpoint,
         #[pin]
         inner: quinn::Accept<'a>,
     }
@@ -179,11 +181,21 @@ impl Future for Accept<'_> {
     type Output = Option<Connecting>;
 
     fn poll(self: Pin<&mut Self>, ctx: &mut Context<'_>) -> Poll<Self::Output> {
-        self.project().inner.poll(ctx).map(|maybe_connecting| {
-            maybe_connecting
-                .and_then(|incoming| incoming.accept().ok())
-                .map(Connecting::new_inbound)
-        })
+        let mut this = self.project();
+        loop {
+            match std::task::ready!(this.inner.as_mut().poll(ctx)) {
+                // The endpoint is closed (or its driver is gone)
+                None => return Poll::Ready(None),
+                Some(incoming) => match incoming.accept() {
+                    Ok(connecting) => {
+                        return Poll::Ready(Some(Connecting::new_inbound(connecting)))
+                    }
+                    // This incoming connection could not be accepted, wait for the next one
+                    // instead of reporting the endpoint as closed.
+                    Err(_) => this.inner.set(this.endpoint.accept()),
+                },
+            }
+        }
     }
 }
 
